@@ -7,6 +7,7 @@ package c15
 
 import (
 	"os"
+	"time"
 
 	"mellium.im/xmpp/verifharness/core"
 )
@@ -48,6 +49,22 @@ func run(c *core.Case) {
 	}
 }
 
+// caseTimeout: the engine's watchdog is only a backstop (waits inside a case
+// are bounded by hardLimit); the thorough tier's 65 537-packet transfer needs
+// minutes.
+func caseTimeout() time.Duration {
+	thorough := os.Getenv("VERIF_TIER") == "thorough"
+	for _, a := range os.Args {
+		if a == "thorough" || a == "--tier=thorough" {
+			thorough = true
+		}
+	}
+	if thorough {
+		return 12 * time.Minute
+	}
+	return 90 * time.Second
+}
+
 // Prop returns the C15 check.
 func Prop() *core.Prop {
 	return &core.Prop{
@@ -64,11 +81,12 @@ func Prop() *core.Prop {
 		},
 		Cases: func(tier string) int {
 			if tier == "thorough" {
-				return 12000
+				return 30000
 			}
 			return 500
 		},
 		Run:           run,
+		CaseTimeout:   caseTimeout(),
 		ReplayRepeats: 20,
 		Witnesses:     witnesses(),
 		Require: []string{
